@@ -88,10 +88,10 @@ theorem initGE_accepts_iff (p : BlakeInitGE.P) :
     have hc6 : BlakeInitGE.c6 p := by
       simp only [epv_cond]
       linarith
-    have hc7 : BlakeInitGE.c7 p := by simp only [epv_cond]; exact hgeo
-    have hc8 : BlakeInitGE.c8 p := by simp only [epv_cond]; exact hrho
-    have hc9 : BlakeInitGE.c9 p := by simp only [epv_cond]; exact hrad
-    have hc10 : BlakeInitGE.c10 p := by simp only [epv_cond]; exact hprs
+    have hc7 : BlakeInitGE.c7 p := by simp only [epv_cond]; first | exact hgeo | exact hrho | exact hrad | exact hprs
+    have hc8 : BlakeInitGE.c8 p := by simp only [epv_cond]; first | exact hgeo | exact hrho | exact hrad | exact hprs
+    have hc9 : BlakeInitGE.c9 p := by simp only [epv_cond]; first | exact hgeo | exact hrho | exact hrad | exact hprs
+    have hc10 : BlakeInitGE.c10 p := by simp only [epv_cond]; first | exact hgeo | exact hrho | exact hrad | exact hprs
     simp only [epv_tree, hc0, hc1, hc2, hc4, hc5, hc6, hc7, hc8, hc9, hc10, if_true, if_false, ite_self]
 
 /-- pair (G, E): **the constructed solver is in the domain of the C15 field theorems** — the attributes `_run` reads
@@ -162,10 +162,10 @@ theorem initGNu_accepts_iff (p : BlakeInitGNu.P) :
     have hc3 : BlakeInitGNu.c3 p := by
       simp only [epv_cond]
       linarith
-    have hc4 : BlakeInitGNu.c4 p := by simp only [epv_cond]; exact hgeo
-    have hc5 : BlakeInitGNu.c5 p := by simp only [epv_cond]; exact hrho
-    have hc6 : BlakeInitGNu.c6 p := by simp only [epv_cond]; exact hrad
-    have hc7 : BlakeInitGNu.c7 p := by simp only [epv_cond]; exact hprs
+    have hc4 : BlakeInitGNu.c4 p := by simp only [epv_cond]; first | exact hgeo | exact hrho | exact hrad | exact hprs
+    have hc5 : BlakeInitGNu.c5 p := by simp only [epv_cond]; first | exact hgeo | exact hrho | exact hrad | exact hprs
+    have hc6 : BlakeInitGNu.c6 p := by simp only [epv_cond]; first | exact hgeo | exact hrho | exact hrad | exact hprs
+    have hc7 : BlakeInitGNu.c7 p := by simp only [epv_cond]; first | exact hgeo | exact hrho | exact hrad | exact hprs
     simp only [epv_tree, hc0, hc1, hc2, hc3, hc4, hc5, hc6, hc7, if_true, if_false, ite_self]
 
 /-- pair (G, ν): **the constructed solver is in the domain of the C15 field theorems** — the attributes `_run` reads
@@ -236,10 +236,10 @@ theorem initGK_accepts_iff (p : BlakeInitGK.P) :
     have hc4 : BlakeInitGK.c4 p := by
       simp only [epv_cond]
       linarith
-    have hc5 : BlakeInitGK.c5 p := by simp only [epv_cond]; exact hgeo
-    have hc6 : BlakeInitGK.c6 p := by simp only [epv_cond]; exact hrho
-    have hc7 : BlakeInitGK.c7 p := by simp only [epv_cond]; exact hrad
-    have hc8 : BlakeInitGK.c8 p := by simp only [epv_cond]; exact hprs
+    have hc5 : BlakeInitGK.c5 p := by simp only [epv_cond]; first | exact hgeo | exact hrho | exact hrad | exact hprs
+    have hc6 : BlakeInitGK.c6 p := by simp only [epv_cond]; first | exact hgeo | exact hrho | exact hrad | exact hprs
+    have hc7 : BlakeInitGK.c7 p := by simp only [epv_cond]; first | exact hgeo | exact hrho | exact hrad | exact hprs
+    have hc8 : BlakeInitGK.c8 p := by simp only [epv_cond]; first | exact hgeo | exact hrho | exact hrad | exact hprs
     simp only [epv_tree, hc0, hc1, hc3, hc4, hc5, hc6, hc7, hc8, if_true, if_false, ite_self]
 
 /-- pair (G, K): **the constructed solver is in the domain of the C15 field theorems** — the attributes `_run` reads
@@ -319,10 +319,10 @@ theorem initGM_accepts_iff (p : BlakeInitGM.P) :
       simp only [epv_cond]
       rw [div_lt_iff₀ (by linarith)]
       linarith
-    have hc7 : BlakeInitGM.c7 p := by simp only [epv_cond]; exact hgeo
-    have hc8 : BlakeInitGM.c8 p := by simp only [epv_cond]; exact hrho
-    have hc9 : BlakeInitGM.c9 p := by simp only [epv_cond]; exact hrad
-    have hc10 : BlakeInitGM.c10 p := by simp only [epv_cond]; exact hprs
+    have hc7 : BlakeInitGM.c7 p := by simp only [epv_cond]; first | exact hgeo | exact hrho | exact hrad | exact hprs
+    have hc8 : BlakeInitGM.c8 p := by simp only [epv_cond]; first | exact hgeo | exact hrho | exact hrad | exact hprs
+    have hc9 : BlakeInitGM.c9 p := by simp only [epv_cond]; first | exact hgeo | exact hrho | exact hrad | exact hprs
+    have hc10 : BlakeInitGM.c10 p := by simp only [epv_cond]; first | exact hgeo | exact hrho | exact hrad | exact hprs
     simp only [epv_tree, hc0, hc1, hc2, hc4, hc5, hc6, hc7, hc8, hc9, hc10, if_true, if_false, ite_self]
 
 /-- pair (G, M): **the constructed solver is in the domain of the C15 field theorems** — the attributes `_run` reads
@@ -393,10 +393,10 @@ theorem initENu_accepts_iff (p : BlakeInitENu.P) :
     have hc3 : BlakeInitENu.c3 p := by
       simp only [epv_cond]
       linarith
-    have hc4 : BlakeInitENu.c4 p := by simp only [epv_cond]; exact hgeo
-    have hc5 : BlakeInitENu.c5 p := by simp only [epv_cond]; exact hrho
-    have hc6 : BlakeInitENu.c6 p := by simp only [epv_cond]; exact hrad
-    have hc7 : BlakeInitENu.c7 p := by simp only [epv_cond]; exact hprs
+    have hc4 : BlakeInitENu.c4 p := by simp only [epv_cond]; first | exact hgeo | exact hrho | exact hrad | exact hprs
+    have hc5 : BlakeInitENu.c5 p := by simp only [epv_cond]; first | exact hgeo | exact hrho | exact hrad | exact hprs
+    have hc6 : BlakeInitENu.c6 p := by simp only [epv_cond]; first | exact hgeo | exact hrho | exact hrad | exact hprs
+    have hc7 : BlakeInitENu.c7 p := by simp only [epv_cond]; first | exact hgeo | exact hrho | exact hrad | exact hprs
     simp only [epv_tree, hc0, hc1, hc2, hc3, hc4, hc5, hc6, hc7, if_true, if_false, ite_self]
 
 /-- pair (E, ν): **the constructed solver is in the domain of the C15 field theorems** — the attributes `_run` reads
